@@ -13,6 +13,44 @@ import LassoModel.Extracted
 namespace Lasso
 open Lasso.Source Lasso.Grow
 
+/-! The proofs are split in two so that they survive harmless rewrites of the source: (1) the regenerated
+tree evaluates to a closed-form specification of the four numbers involved — proved by blind case
+splitting and linear arithmetic, so `x * 2` vs `x + x`, `a > b` vs `b < a`, renamed or inlined locals,
+negated conditions with swapped branches all go through; (2) the specification is what the model does
+(independent of the source). -/
+
+/-- Closed form of the growth decision (both arenas): oversized / remaining budget / doubled. -/
+def growSpec (place1 place2 : GPlace) (env : Env) : Outcome :=
+  if env.len > env.bucketCap * 2 then
+    (if env.usage + env.len > env.max then .err else .grow env.len env.len none place1)
+  else if env.usage + env.bucketCap * 2 > env.max then
+    (if env.max - env.usage < env.len then .err
+     else if env.max - env.usage = 0 then .err
+     else .grow (env.max - env.usage) (env.max - env.usage) none place2)
+  else .grow (env.bucketCap * 2) (env.bucketCap * 2) (some (env.bucketCap * 2)) place2
+
+/-- Closes the leaves of the case analysis: equal outcomes, or contradictory arithmetic. -/
+macro "grow_leaf" : tactic =>
+  `(tactic| first
+    | omega
+    | (simp_all <;> omega)
+    | (simp_all; done)
+    | (refine congrArg some ?_; simp_all <;> omega))
+
+theorem arenaGrow_spec (env : Env) (hn : env.nextCap = none) (hr : env.remaining = none) :
+    Grow.eval env Extracted.arenaGrow = some (growSpec .insertBeforeLast .pushBack env) := by
+  simp only [Extracted.arenaGrow, Grow.eval, Grow.evalE, Grow.evalC, Env.get, Env.set, Grow.evalAlloc,
+    Option.bind_some, bind, pure, growSpec, hn, hr]
+  repeat' split
+  all_goals grow_leaf
+
+theorem lockfreeGrow_spec (env : Env) (hn : env.nextCap = none) (hr : env.remaining = none) :
+    Grow.eval env Extracted.lockfreeGrow = some (growSpec .pushFront .pushFront env) := by
+  simp only [Extracted.lockfreeGrow, Grow.eval, Grow.evalE, Grow.evalC, Env.get, Env.set, Grow.evalAlloc,
+    Option.bind_some, bind, pure, growSpec, hn, hr]
+  repeat' split
+  all_goals grow_leaf
+
 /-- What an outcome of the source's decision tree means for the single-threaded arena. -/
 def Arena.applyOutcome (a : Arena) (s : Bytes) : Outcome → Out (Arena × StrRef)
   | .err => .err .memoryLimit
@@ -33,29 +71,30 @@ def Arena.applyOutcome (a : Arena) (s : Bytes) : Outcome → Out (Arena × StrRe
 def Arena.env (a : Arena) (s : Bytes) : Env := { len := s.length, bucketCap := a.bucketCap, usage := a.usage, max := a.max }
 
 /-- **The single-threaded arena's model is the source's decision tree.** -/
-theorem arena_store_is_source_tree (a : Arena) (s : Bytes) (h0 : s.length ≠ 0) (hfit : ¬ s.length ≤ a.cur.free) :
-    (Grow.eval (a.env s) Extracted.arenaGrow).map (a.applyOutcome s) = some (a.store s) := by
-  unfold Arena.store
-  simp only [h0, hfit, ↓reduceIte]
-  simp only [Extracted.arenaGrow, Grow.eval, Grow.evalE, Grow.evalC, Arena.env, Env.get, Env.set, Grow.evalAlloc,
-    Option.bind_some, bind, pure]
+theorem arena_store_is_spec (a : Arena) (s : Bytes) (h0 : s.length ≠ 0) (hfit : ¬ s.length ≤ a.cur.free) :
+    a.applyOutcome s (growSpec .insertBeforeLast .pushBack (a.env s)) = a.store s := by
+  unfold Arena.store growSpec
+  simp only [h0, hfit, ↓reduceIte, Arena.env]
   by_cases h1 : s.length > a.bucketCap * 2
-  · simp only [h1, decide_true, ↓reduceIte, Arena.storeOversize]
+  · simp only [h1, ↓reduceIte, Arena.storeOversize]
     by_cases h2 : a.usage + s.length > a.max <;> simp [h2, Arena.applyOutcome]
-  · simp only [h1, decide_false, Bool.false_eq_true, ↓reduceIte]
+  · simp only [h1, ↓reduceIte]
     by_cases h2 : a.usage + a.bucketCap * 2 > a.max
-    · simp only [h2, decide_true, ↓reduceIte, Arena.storeRemaining]
+    · simp only [h2, ↓reduceIte, Arena.storeRemaining]
       by_cases h3 : a.max - a.usage < s.length
       · simp [h3, Arena.applyOutcome]
-      · by_cases h4 : a.usage + (a.max - a.usage) > a.max
-        · omega
-        · by_cases h5 : a.max - a.usage = 0
-          · omega
-          · have h6 : s.length ≤ a.max - a.usage := by omega
-            simp [h3, h4, h5, h6, Arena.applyOutcome]
-    · simp only [h2, decide_false, Bool.false_eq_true, ↓reduceIte, Arena.storeDouble]
+      · have h4 : ¬ a.usage + (a.max - a.usage) > a.max := by omega
+        have h5 : ¬ a.max - a.usage = 0 := by omega
+        have h6 : s.length ≤ a.max - a.usage := by omega
+        simp [h3, h4, h5, h6, Arena.applyOutcome]
+    · simp only [h2, ↓reduceIte, Arena.storeDouble]
       have h6 : s.length ≤ a.bucketCap * 2 := by omega
       simp [h6, Arena.applyOutcome]
+
+/-- **The single-threaded arena's model is the source's decision tree.** -/
+theorem arena_store_is_source_tree (a : Arena) (s : Bytes) (h0 : s.length ≠ 0) (hfit : ¬ s.length ≤ a.cur.free) :
+    (Grow.eval (a.env s) Extracted.arenaGrow).map (a.applyOutcome s) = some (a.store s) := by
+  rw [arenaGrow_spec (a.env s) rfl rfl, Option.map_some, arena_store_is_spec a s h0 hfit]
 
 /-- What an outcome means for the lock-free arena (sequential semantics): new blocks go to the head. -/
 def LArena.applyOutcome (a : LArena) (s : Bytes) : Outcome → Out (LArena × StrRef)
@@ -73,28 +112,33 @@ def LArena.applyOutcome (a : LArena) (s : Bytes) : Outcome → Out (LArena × St
 def LArena.env (a : LArena) (s : Bytes) : Env := { len := s.length, bucketCap := a.bucketCap, usage := a.usage, max := a.max }
 
 /-- **The lock-free arena's growth model is the source's decision tree.** -/
-theorem larena_grow_is_source_tree (a : LArena) (s : Bytes) :
-    (Grow.eval (a.env s) Extracted.lockfreeGrow).map (a.applyOutcome s) = some (a.grow s) := by
-  unfold LArena.grow
-  simp only [Extracted.lockfreeGrow, Grow.eval, Grow.evalE, Grow.evalC, LArena.env, Env.get, Env.set, Grow.evalAlloc,
-    Option.bind_some, bind, pure]
+theorem larena_grow_is_spec (a : LArena) (s : Bytes) :
+    a.applyOutcome s (growSpec .pushFront .pushFront (a.env s)) = a.grow s := by
+  unfold LArena.grow growSpec
+  simp only [LArena.env]
   by_cases h1 : s.length > a.bucketCap * 2
-  · simp only [h1, decide_true, ↓reduceIte]
+  · simp only [h1, ↓reduceIte]
     by_cases h2 : a.usage + s.length > a.max <;> simp [h2, LArena.applyOutcome]
-  · simp only [h1, decide_false, Bool.false_eq_true, ↓reduceIte]
+  · simp only [h1, ↓reduceIte]
     by_cases h2 : a.usage + a.bucketCap * 2 > a.max
-    · simp only [h2, decide_true, ↓reduceIte]
+    · simp only [h2, ↓reduceIte]
       by_cases h3 : a.max - a.usage < s.length
       · simp [h3, LArena.applyOutcome]
       · by_cases h4 : a.usage + (a.max - a.usage) > a.max
-        · simp [h3, h4, LArena.applyOutcome]
+        · have h5 : a.max - a.usage = 0 := by omega
+          simp [h3, h4, h5, LArena.applyOutcome]
         · by_cases h5 : a.max - a.usage = 0
           · simp [h3, h4, h5, LArena.applyOutcome]
           · have h6 : s.length ≤ a.max - a.usage := by omega
             simp [h3, h4, h5, h6, LArena.applyOutcome]
-    · simp only [h2, decide_false, Bool.false_eq_true, ↓reduceIte]
+    · simp only [h2, ↓reduceIte]
       have h6 : s.length ≤ a.bucketCap * 2 := by omega
       simp [h6, LArena.applyOutcome]
+
+/-- **The lock-free arena's growth model is the source's decision tree.** -/
+theorem larena_grow_is_source_tree (a : LArena) (s : Bytes) :
+    (Grow.eval (a.env s) Extracted.lockfreeGrow).map (a.applyOutcome s) = some (a.grow s) := by
+  rw [lockfreeGrow_spec (a.env s) rfl rfl, Option.map_some, larena_grow_is_spec a s]
 
 /-- `Arena::allocate_memory` in the source is the check-then-add the model's `allocate` (and the
 `claim` step of `Grow.evalAlloc`) assumes. -/
